@@ -112,4 +112,11 @@ PickFrom(files, c, base, i, cur) ==
 Picked(files, c) == PickFrom(files, c, BaseOf(files), 1, BaseOf(files))
 \* what a user relies on: the merged row is a row of a file with the maximal number of cells of that cluster
 PickIsMax(files, c) == \A j \in 1..Len(files) : files[j].n[c] <= files[Picked(files, c)].n[c]
+
+\* ------------------------------------------------------------------ 5. back pointers (utils/config_utils.py)
+\* A reference-marker file (a p-value mask) names the statistics file it was computed from.  The stage that needs the
+\* statistics uses that path if a file is there; else - only when searching is allowed - a file of the same NAME in the
+\* directory of the file that holds the pointer; else the run stops naming both files.
+Resolve(childExists, doSearch, altExists) ==
+    IF childExists THEN "child" ELSE IF doSearch /\ altExists THEN "alt" ELSE "missing"
 =============================================================================
